@@ -69,7 +69,7 @@ const MaxSites = 64
 
 // spinLimit: statements a task may execute in one step before it is treated
 // as spin-waiting.
-const spinLimit = 200000
+const spinLimit = 2000000
 
 const (
 	siteStart = MaxSites - 2
@@ -114,7 +114,10 @@ type Sim struct {
 	GCNum       int // out of FaultDen per scheduler step (and per sequential op where the harness asks)
 	Passthrough bool
 	pools       []*poolState
-	objs        []unsafe.Pointer
+	objKeys     []unsafe.Pointer
+	objVals     []int32
+	objCount    int
+	realGCs     int
 
 	// scheduler
 	Strategy     int
@@ -139,8 +142,11 @@ type Sim struct {
 	mail         []*mailItem
 	fin          finState
 	handoff      []handoffItem
+	wgs          []*wgShadow
 	finishedRun  bool
 	Deadlocked   string // non-empty: the run was abandoned because every live task was blocked
+	RaceAborted  bool   // the run was cut short because the race detector had already reported a race in it
+	raceBase     int
 	inRun        bool
 	clock
 
@@ -257,25 +263,46 @@ func NoSync(f func()) {
 }
 
 // ObjID numbers objects in first-seen order; pointers never enter traces.
+// (An open-addressing table written by hand: maps are off limits here, see
+// the package comment, and marathons see hundreds of thousands of objects.)
 //
 //go:norace
 func (s *Sim) ObjID(p unsafe.Pointer) int {
-	for i := 0; i < len(s.objs); i++ {
-		if s.objs[i] == p {
-			return i
+	if len(s.objKeys) == 0 {
+		s.objKeys = make([]unsafe.Pointer, 256)
+		s.objVals = make([]int32, 256)
+	}
+	mask := uintptr(len(s.objKeys) - 1)
+	h := (uintptr(p) >> 3) * 0x9e3779b97f4a7c15
+	i := (h >> 17) & mask
+	for s.objKeys[i] != nil {
+		if s.objKeys[i] == p {
+			return int(s.objVals[i])
+		}
+		i = (i + 1) & mask
+	}
+	id := s.objCount
+	s.objCount++
+	s.objKeys[i] = p
+	s.objVals[i] = int32(id)
+	if 2*s.objCount > len(s.objKeys) {
+		oldK, oldV := s.objKeys, s.objVals
+		s.objKeys = make([]unsafe.Pointer, 2*len(oldK))
+		s.objVals = make([]int32, 2*len(oldK))
+		mask = uintptr(len(s.objKeys) - 1)
+		for k := 0; k < len(oldK); k++ {
+			if oldK[k] == nil {
+				continue
+			}
+			j := (((uintptr(oldK[k]) >> 3) * 0x9e3779b97f4a7c15) >> 17) & mask
+			for s.objKeys[j] != nil {
+				j = (j + 1) & mask
+			}
+			s.objKeys[j] = oldK[k]
+			s.objVals[j] = oldV[k]
 		}
 	}
-	n := len(s.objs)
-	if n == cap(s.objs) {
-		bigger := make([]unsafe.Pointer, n, 2*n+16)
-		for i := 0; i < n; i++ {
-			bigger[i] = s.objs[i]
-		}
-		s.objs = bigger
-	}
-	s.objs = s.objs[:n+1]
-	s.objs[n] = p
-	return n
+	return id
 }
 
 // Go registers a task. Tasks start parked; Run releases them one at a time.
@@ -361,6 +388,13 @@ func PointAt(id int) {
 			s.growExecuted(id)
 		}
 		s.Executed[id] = true
+	}
+	if RaceEnabled && s.pointsInStep&1023 == 0 && t.lockDepth == 0 && RaceErrors() > s.raceBase {
+		// give the scheduler the chance to cut the run short (see Run)
+		t.inner = true
+		t.at = id
+		t.yield(t.parked)
+		return
 	}
 	if s.pointsInStep > spinLimit && t.lockDepth == 0 {
 		// The task has executed a very large number of statements without
@@ -586,6 +620,7 @@ func (s *Sim) Run(estSteps int) {
 		go t.main() // goroutine creation: set-up happens-before every task
 	}
 	s.inRun = true
+	s.raceBase = RaceErrors()
 	raceDisable()
 	runnable := make([]*Task, n)
 	for i := 0; i < n; i++ {
@@ -616,6 +651,14 @@ func (s *Sim) Run(estSteps int) {
 		runnable = runnable[:k]
 		if k == 0 || (roots == 0 && awake == 0) {
 			break // every harness task is done; goroutines the library started are idle
+		}
+		if RaceEnabled && RaceErrors() > s.raceBase {
+			// The verdict on this run is in. Code that races heavily is also
+			// extremely slow under the detector (every conflicting access walks
+			// the report path), so the rest of the run is not executed.
+			s.RaceAborted = true
+			s.Deadlocked = "run cut short after a data race report"
+			break
 		}
 		if s.step > 8*s.MaxSteps+1000 {
 			raceEnable()
@@ -868,8 +911,8 @@ func (s *Sim) watchdog(stop chan struct{}) {
 		p := s.progress.Load()
 		if p == lastSeen {
 			stuck++
-			if stuck >= 4 {
-				fmt.Fprintln(os.Stderr, "INFRA: task stuck (no scheduler progress for 20 s)")
+			if stuck >= 12 {
+				fmt.Fprintln(os.Stderr, "INFRA: task stuck (no scheduler progress for 60 s)")
 				os.Exit(2)
 			}
 		} else {
